@@ -136,8 +136,9 @@ def EWF (dim : Nat) (e : Estimator ℝ) : Prop :=
   ∀ k < e.ls.Y.size, rowSize e.ls k = e.ls.est
 
 theorem ewf_init (dim : Nat) : EWF dim (init dim : Estimator ℝ) := by
-  refine ⟨rfl, rfl, rfl, fun k hk => ?_⟩
-  simp [init, setEstimateSize, State.default] at hk
+  refine ⟨rfl, ?_, rfl, fun k hk => ?_⟩
+  · simp [init, setEstimateSize, State.default, Mat.tab]
+  · simp [init, setEstimateSize, State.default] at hk
 
 theorem ewf_setPreconditioner (dim : Nat) (e : Estimator ℝ) (p : Preconditioned ℝ) (h : EWF dim e) :
     EWF dim (PointToPlane.setPreconditioner dim e p) := h
